@@ -31,10 +31,11 @@ def format_ranges_control_dependent(ctx, res, rule):
     b = P.fn("code::formatter::format")
     fn = fshort(b)
     loc = T.loc(b["tree"])
-    params = {p["pat"]["name"]: p["pat"]["id"] for p in b["params"] if p["pat"]["p"] == "bind"}
-    if "removed_pos" not in params:
-        res.cannot(rule, fn, "params", "parameter removed_pos not found", loc)
+    # format(content, removed_pos, formatters, structure_formatters): the removed positions are the second parameter
+    if len(b["params"]) < 2 or b["params"][1]["pat"]["p"] != "bind" or "usize" not in (b["params"][1].get("ty") or ""):
+        res.cannot(rule, fn, "params", "the removed-positions parameter (2nd) was not found", loc)
         return
+    params = {"removed_pos": b["params"][1]["pat"]["id"]}
     # vectors of ranges declared in the function
     range_vecs = {}
     for s in T.nodes(b["tree"], "let"):
